@@ -135,6 +135,39 @@ func c15Direct(c *Ctx) {
 			}
 		}
 	}
+	// (a2) every size up to a bound x the state of the client's buffer pool. The compressor
+	// builds its output in a pooled buffer that it grows as it goes; whether a chunk's
+	// output lands inside the spare capacity or moves the buffer depends on the payload
+	// size, on how far the codec expands it (incompressible data grows by a few bytes per
+	// chunk) and on what the pool hands out. Each size runs in its own controlled
+	// execution (deterministic LIFO pool, emptied at the start): cold pool, then again
+	// with the buffers the first round freed, then after a tiny request left only a
+	// small buffer behind.
+	dense := 9000
+	if c.Thorough {
+		dense = 70000
+	}
+	for sz := 65; sz <= dense && c.Filter == ""; sz++ {
+		if !own() {
+			continue
+		}
+		if r.TimeUp() {
+			return
+		}
+		for class := 1; class < 3; class++ {
+			p := c15Content(class, sz)
+			tiny := []byte{1, 2, 3}
+			explore.RunOnce(&explore.Unit{Body: func() {
+				roundtrip(fmt.Sprintf("rt|size=%d|class=%d|pool=cold", sz, class), [][]byte{p}, p)
+				roundtrip(fmt.Sprintf("rt|size=%d|class=%d|pool=warm", sz, class), [][]byte{p}, p)
+			}}, nil)
+			explore.RunOnce(&explore.Unit{Body: func() {
+				region.VCompress(codec, [][]byte{tiny}, 3)
+				roundtrip(fmt.Sprintf("rt|size=%d|class=%d|pool=after-tiny", sz, class), [][]byte{p}, p)
+				roundtrip(fmt.Sprintf("rt|size=%d|class=%d|pool=after-tiny-2", sz, class), [][]byte{p[:sz/2], p[sz/2:]}, p)
+			}}, nil)
+		}
+	}
 	// (b) conforming server streams: every composition into 1..3 blocks x 1..3 chunks
 	encoders := map[string]func([]byte) []byte{
 		"literal": sim.SnappyEncodeLiteral,
